@@ -170,6 +170,40 @@ def summarize(outs):
 
 # ------------------------------------------------------------------ Allocator.tla: exhaustive + replay into the real allocator
 
+def allocator_unbounded():
+    """The counter logic over unbounded integers: Apalache proves AllocatorInd!IndInv inductive (Init => IndInv at
+    length 0, IndInv /\ Next => IndInv' at length 1, for every Limit1 <= Limit2 and every request size); TLC checks that
+    Allocator.tla refines AllocatorInd.tla under held = Sum(blocks), and that the refinement is refuted for the mutant
+    `MutCheckAfter`.  Returns dict(ok, steps=[...], problem)."""
+    res = {"ok": True, "steps": [], "problem": None}
+    d = C.scratch("apalache.")
+    shutil.copy(os.path.join(SPEC, "AllocatorInd.tla"), d)
+    for name, init, length in (("Init => IndInv", "Init", 0), ("IndInv /\\ Next => IndInv'", "IndInvInit", 1)):
+        t = time.time()
+        rc, out = C.sh(["timeout", "300", "apalache-mc", "check", "--cinit=ConstInit", "--init=" + init, "--inv=IndInv",
+                        "--length=%d" % length, "AllocatorInd.tla"], cwd=d, timeout=400)
+        ok = rc == 0 and "EXITCODE: OK" in out
+        res["steps"].append({"tool": "apalache", "obligation": name, "ok": ok, "wall_s": round(time.time() - t, 1)})
+        if not ok:
+            res["ok"] = False
+            res["problem"] = res["problem"] or ("Apalache did not discharge %s: %s" % (name, out[-300:].replace("\n", " | ")))
+    C.drop_scratch(d)
+    cfg = ("SPECIFICATION Spec\nCONSTANTS\n Limit1 = 3\n Limit2 = 5\n MaxSize = 3\n MaxBlocks = 3\n MaxOps = 5\n MutCheckAfter = %s\n"
+           " MutShrinkIgnored = FALSE\nPROPERTY Refines\nINVARIANT AbsInv\nCHECK_DEADLOCK FALSE\n")
+    r = C.run_tlc(SPEC, "MC_AllocatorRef", cfg % "FALSE", workers=4, timeout=600)
+    C.drop_scratch(r["dir"])
+    okr = not r["violated"] and not r["error"]
+    res["steps"].append({"tool": "tlc", "obligation": "Allocator refines AllocatorInd (held = Sum(blocks))", "ok": okr,
+                         "distinct": r["distinct"], "wall_s": round(r["wall"], 1)})
+    r2 = C.run_tlc(SPEC, "MC_AllocatorRef", cfg % "TRUE", workers=2, timeout=600)
+    C.drop_scratch(r2["dir"])
+    res["steps"].append({"tool": "tlc", "obligation": "the refinement is refuted for MutCheckAfter", "ok": bool(r2["violated"]),
+                         "violated": r2["violated"]})
+    if not okr or not r2["violated"]:
+        res["ok"] = False
+        res["problem"] = res["problem"] or "refinement check: %s / mutant: %s" % (r["violated"] or r["error"], r2["violated"])
+    return res
+
 def allocator_replay(binp, quick, seed_):
     """Returns dict(states, generated, behaviours, runs, violations, drift, sample, model_issue)."""
     res = {"violations": [], "drift": [], "model_issue": None}
